@@ -8,7 +8,7 @@ import PycsepVerif.Model.Region
     Polygon.__init__ (origin), centroid   models.py:304, :327      → `polyOrigin`, `centroidF`
     CartesianGrid2D.from_origins          regions.py:724           → `fromOrigins` (dh given) / `inferDh` (dh=None, decimal difference of the reprs)
     _build_bitmask_vec                    regions.py:757           → `buildF` (bbox, `cleaner_range`, `bin1d_vec`, loop)
-    cleaner_range incl. the fallback path calc.py:223-255          → `cleanerRangeAll` (main path = `Bin1d.cleanerRangeF`)
+    cleaner_range incl. the fallback path calc.py:223-252          → `cleanerRangeAll` (main path = `Bin1d.cleanerRangeF`; fallback after fix D49 = `fallbackRange`)
     get_bbox, midpoints, origins, bounds  regions.py:676-686, :591 → `getBbox`, `BuiltF.mids`, `BuiltF.origins`, `boundsOf`
     get_location_of                       regions.py:620           → `getLocationOf`
     to_dict / from_dict                   regions.py:688, :698     → `toDict`, `fromDict`
@@ -47,21 +47,38 @@ def midY (o dh tol : Rat) : Rat := (centroidF (computeVertex (0, o) dh tol)).2
 
 /-! ## cleaner_range with its fallback -/
 
-/-- `cleaner_range(start, end, h)` (calc.py:223-255). `decS`, `decH` = `num_decimals(start)`, `num_decimals(h)`.
-Main path (calc.py:242-247) = `Bin1d.cleanerRangeF` with `max decS decH`; when its guard fails the fallback
-(calc.py:250-255): `scale = max(10**decS, 1/h)` (Python `max`: the second wins only when strictly greater; the int is
-converted to float64 when it meets a float), `start, end` rounded on that grid, `d = scale*h` NOT rounded. -/
+/-- the fallback branch of `cleaner_range` AFTER fix D49 (calc.py:249-252): for a step that is not a short decimal no common integer
+grid exists; `n = int(numpy.floor((end - start) / h + 0.5))`, then `start + numpy.arange(n + 1) * h`: edge k is ONE float product
+`k*h` and ONE float sum `start + (k*h)` — no accumulation, and edge 0 is `start` itself. An empty range (`n + 1 ≤ 0`) gives no edge. -/
+def fallbackRange (start end_ h : Rat) : List Rat :=
+  let q := fadd (fdiv (fsub end_ start) h) (1 / 2)
+  (List.range (q.floor + 1).toNat).map (fun (k : Nat) => fadd start (fmul ((k : Nat) : Rat) h))
+
+/-- HISTORICAL (before fix D49): the fallback scaled by `max(10**num_decimals(start), 1/h)` (Python `max`: the second wins only when
+strictly greater; the int is converted to float64 when it meets a float), rounded `start`, `end` on that grid, `d = scale*h` NOT rounded.
+With `scale = 1/h` the START was rounded to a multiple of the step (defect D49) — kept for the kernel-checked findings
+`finding_cleaner_fallback_displaced_*` of Properties/C02_Repr.lean only. -/
+def fallbackRangeOld (start end_ h : Rat) (decS : Nat) : List Rat :=
+  let p10 : Rat := ((10 ^ decS : Nat) : Rat)
+  let inv := fdiv 1 h
+  let scale := if p10 < inv then inv else fl64 p10
+  let s := fround (fmul scale start)
+  let e := fround (fmul scale end_)
+  let d := fmul scale h
+  (Bin1d.arangeF s (fadd e (fdiv d 2)) d).map (fun x => fdiv x scale)
+
+/-- `cleaner_range(start, end, h)` (calc.py:223-252, after fix D49). `decS`, `decH` = `num_decimals(start)`, `num_decimals(h)`.
+Main path (calc.py:242-247) = `Bin1d.cleanerRangeF` with `max decS decH`; when its guard fails, the fallback `fallbackRange`. -/
 def cleanerRangeAll (start end_ h : Rat) (decS decH : Nat) : List Rat :=
   match Bin1d.cleanerRangeF start end_ h (max decS decH) with
   | some l => l
-  | none =>
-    let p10 : Rat := ((10 ^ decS : Nat) : Rat)
-    let inv := fdiv 1 h
-    let scale := if p10 < inv then inv else fl64 p10
-    let s := fround (fmul scale start)
-    let e := fround (fmul scale end_)
-    let d := fmul scale h
-    (Bin1d.arangeF s (fadd e (fdiv d 2)) d).map (fun x => fdiv x scale)
+  | none => fallbackRange start end_ h
+
+/-- HISTORICAL: `cleaner_range` before fix D49 (old fallback) -/
+def cleanerRangeAllOld (start end_ h : Rat) (decS decH : Nat) : List Rat :=
+  match Bin1d.cleanerRangeF start end_ h (max decS decH) with
+  | some l => l
+  | none => fallbackRangeOld start end_ h decS
 
 /-! ## _build_bitmask_vec -/
 
@@ -110,6 +127,24 @@ def buildF (polys : List (List (Rat × Rat))) (dh : Rat) (flags : Option (List B
   let hash := mids.map (fun m => (binF xa m.1, binF ya m.2))                   -- :780-781
   let cells := hashCells xs.length ys.length hash flags
   { xs := xs, ys := ys, origins := origins, mids := mids, hash := hash, cells := cells }
+
+/-- HISTORICAL: the constructor with `cleaner_range` as it was before fix D49 (only the edge arrays differ) — for the kernel-checked
+findings (`finding_cleaner_fallback_displaced_region`, the D30 witness) -/
+def buildFOld (polys : List (List (Rat × Rat))) (dh : Rat) (flags : Option (List Bool)) (dec : Nat × Nat × Nat) : BuiltF :=
+  let origins := polys.map polyOrigin
+  let ox := origins.map (·.1)
+  let oy := origins.map (·.2)
+  let mids := polys.map centroidF
+  let xs := cleanerRangeAllOld (minL ox) (maxL ox) dh dec.1 dec.2.2
+  let ys := cleanerRangeAllOld (minL oy) (maxL oy) dh dec.2.1 dec.2.2
+  let xa := xs.toArray
+  let ya := ys.toArray
+  let hash := mids.map (fun m => (binF xa m.1, binF ya m.2))
+  let cells := hashCells xs.length ys.length hash flags
+  { xs := xs, ys := ys, origins := origins, mids := mids, hash := hash, cells := cells }
+
+def fromOriginsOld (origins : List (Rat × Rat)) (dh : Rat) (flags : Option (List Bool)) (dec : Nat × Nat × Nat) : BuiltF :=
+  buildFOld (origins.map (fun o => computeVertex o dh eps64)) dh flags dec
 
 /-- regions.py:750: `from_origins(origins, dh)` → polygons by `compute_vertices` with the default tolerance `finfo(float).eps` -/
 def fromOrigins (origins : List (Rat × Rat)) (dh : Rat) (flags : Option (List Bool)) (dec : Nat × Nat × Nat) : BuiltF :=
